@@ -29,7 +29,9 @@ Inductive op :=
 | LoseW                     (* loseWriteConnection *)
 | DoWrite (k : nat)         (* reactor: descriptor writable; OS accepts at most k bytes *)
 | DoWriteErr                (* reactor: descriptor writable; writeSomeData returns an exception *)
-| Drop.                     (* connection lost for an outside reason *)
+| Drop                      (* connection lost for an outside reason *)
+| Connect.                  (* a client transport's connection is established (tcp.BaseClient.doConnect /
+                               _connectDone): stopReading, stopWriting, connected = 1, startReading *)
 
 Inductive ev :=
 | EOs (offered : bytes) (k : nat)     (* writeSomeData(offered) returned k *)
@@ -93,6 +95,10 @@ Definition is_streaming (s : st) : bool :=
 
 Definition init : st :=
   mk true false false false false [] 0 [] 0 None false 0 false true [] [] false false [].
+
+(** a client transport before its connection is established: connected = 0 and disconnected = 0 *)
+Definition init_pre : st :=
+  mk false false false false false [] 0 [] 0 None false 0 false false [] [] false false [].
 
 Section WithLimits.
   Variables (slimit bsize : nat).
@@ -225,9 +231,13 @@ Section WithLimits.
     | DoWrite k => if writing s then do_write (Some k) s else s
     | DoWriteErr => if writing s then do_write None s else s
     | Drop => if connected s then conn_lost false s else s
+    | Connect =>
+        if negb (connected s) && negb (disconnected s)
+        then set_reading true (set_connected true (set_writing false (set_reading false s)))
+        else s
     end.
 
-  Definition run (ops : list op) : st := fold_left step ops init.
+  Definition run (pre : bool) (ops : list op) : st := fold_left step ops (if pre then init_pre else init).
 End WithLimits.
 
 (** ---- ghost readings of the event log (chronological order = [rev (log s)]) ---- *)
